@@ -288,6 +288,8 @@ def add_coalescent(parser):
 
 
 def check_arguments(arg, parser):
+    if arg.model == "MG94" and arg.genetic_code is None:
+        parser.error("the MG94 model requires the genetic_code argument")
     if arg.birth_death == "bdsk" and arg.grid is None:
         parser.error("bdsk birth-death model requires the grid argument")
     if arg.coalescent in COALESCENT_PIECEWISE:
